@@ -706,6 +706,31 @@ func runC19(c *Cfg) {
 			}
 		}
 	}
+	// the same value through different routes, and settings made after the node was wired into a flow
+	var rcs []*RouteCase
+	for _, v := range []int{-1, -3, -64} {
+		for _, rt := range []string{"builder", "option-then-builder", "builder-twice", "plain-node-builder"} {
+			rcs = append(rcs, &RouteCase{Family: "route-twins", Kind: "negative-batch-concurrency", Val: v, Route: rt})
+		}
+	}
+	for _, v := range []int{1, 2, 4} {
+		for _, rt := range []string{"start-node-then-builder", "connect-then-builder", "connect-then-option", "builder-then-connect"} {
+			for _, via := range []string{"run", "flow"} {
+				rcs = append(rcs, &RouteCase{Family: "route-twins", Kind: "configured-after-wiring", Val: v, Route: rt, Via: via})
+			}
+		}
+	}
+	for i, rc := range rcs {
+		if !c.Mine(i) {
+			continue
+		}
+		for _, f := range runRouteCase(rc) {
+			r.Violate("C19", "C19:"+f.key, f.detail, rc)
+		}
+		r.Eval()
+		r.Count("route_twins.cases", 1)
+		r.Nontrivial(fmt.Sprintf("rt %s %d %s %s", rc.Kind, rc.Val, rc.Route, rc.Via))
+	}
 	// last setting wins also when the node configures itself from inside its own prep (the last setting before the
 	// items run): concurrency and error handling set there apply to this very run
 	for _, pc := range []struct{ built, c int }{{1, 4}, {4, 0}, {0, 3}, {2, 5}} {
@@ -876,6 +901,14 @@ func runCfg(c *Cfg, cs *CfgCase) {
 }
 
 func replayC19(c *Cfg, spec json.RawMessage) {
+	var rc RouteCase
+	if json.Unmarshal(spec, &rc) == nil && rc.Family == "route-twins" {
+		for _, f := range runRouteCase(&rc) {
+			fmt.Printf(" * finding %s: %s\n", f.key, f.detail)
+			c.Rep.Violate("C19", "C19:"+f.key, f.detail, rc)
+		}
+		return
+	}
 	if isBatchCase(spec) {
 		var bc BatchCase
 		_ = json.Unmarshal(spec, &bc)
